@@ -724,11 +724,29 @@ def _fact_lins_cached(facts, simple_only):
     return r
 
 
+_BCACHE = {}
+
+
 def bounds(v, facts, depth=0, _simple_only=False, _fl=None):
     """(lower, upper) bounds of a linear form proved from the facts; None = not proved"""
     v = lin(v)
     if v.is_const():
         return v.c, v.c
+    if depth == 0 and _fl is None and not _simple_only and isinstance(facts, tuple):
+        # the same question is asked again and again while a path is followed: remember the answers per fact list (kept alive by the entry)
+        ent = _BCACHE.get(id(facts))
+        if ent is None or ent[0] is not facts:
+            if len(_BCACHE) > 3000:
+                _BCACHE.clear()
+            ent = _BCACHE[id(facts)] = (facts, {})
+        r = ent[1].get(v)
+        if r is None:
+            r = ent[1][v] = _bounds(v, facts, depth, _simple_only, _fl)
+        return r
+    return _bounds(v, facts, depth, _simple_only, _fl)
+
+
+def _bounds(v, facts, depth=0, _simple_only=False, _fl=None):
     if _fl is None:
         if _simple_only:
             facts = tuple(f for f in facts if _simple_fact(f[0]))
@@ -775,17 +793,21 @@ def bounds(v, facts, depth=0, _simple_only=False, _fl=None):
         vat = set(v.t)
         rel = [g for g in fl if vat & set(g.t)]
         for i, g1 in enumerate(rel):
+            vm, vp = v - g1, v + g1
+            km, kp = set(vm.t), set(vp.t)
             for g2 in fl:
                 if g2 is g1:
                     continue
-                d = v - g1 - g2
-                if d.is_const():
-                    lo = d.c if lo is None else max(lo, d.c)
-                d = v + g1 + g2
-                if d.is_const():
-                    hi = d.c if hi is None else min(hi, d.c)
+                if km == set(g2.t):             # only then can the difference be a constant
+                    d = vm - g2
+                    if d.is_const():
+                        lo = d.c if lo is None else max(lo, d.c)
+                if kp == set(g2.t):
+                    d = vp + g2
+                    if d.is_const():
+                        hi = d.c if hi is None else min(hi, d.c)
     # one fact taken out, the remainder bounded by structure and by the other facts:  v = (v - g) + g >= bound(v - g)  for a fact g >= 0
-    if depth == 0 and 0 < len(fl) <= 48 and (lo is None or hi is None):
+    if depth <= 1 and 0 < len(fl) <= 48 and (lo is None or hi is None):
         vat = set(v.t)
         for g in fl:
             if not (vat & set(g.t)):
@@ -793,13 +815,13 @@ def bounds(v, facts, depth=0, _simple_only=False, _fl=None):
             if lo is None or lo < 0:
                 d = v - g
                 if vat - set(d.t):
-                    rlo, _ = bounds(d, facts, 1, _fl=fl)
+                    rlo, _ = bounds(d, facts, depth + 1, _fl=fl)
                     if rlo is not None:
                         lo = rlo if lo is None else max(lo, rlo)
             if hi is None or hi > 0:
                 d = v + g
                 if vat - set(d.t):
-                    _, rhi = bounds(d, facts, 1, _fl=fl)
+                    _, rhi = bounds(d, facts, depth + 1, _fl=fl)
                     if rhi is not None:
                         hi = rhi if hi is None else min(hi, rhi)
     # term by term
@@ -829,7 +851,7 @@ def bounds(v, facts, depth=0, _simple_only=False, _fl=None):
                     if not upper and rlo is not None:
                         lo = rlo if lo is None else max(lo, rlo)
     # x - k * floor((x + c) / k)  =  ((x + c) mod k) - c
-    if depth < 2:
+    if depth < 3:
         for at, coef in v.t.items():
             if isinstance(at, tuple) and at[0] == "fd":
                 k = at[2]
@@ -1023,6 +1045,38 @@ def _occurrences(v, atom):
         for x in v:
             if isinstance(x, (tuple, Lin)):
                 yield from _occurrences(x, atom)
+
+
+def subst(v, atom, repl):
+    """the value with every occurrence of `atom` (a symbol, a length, ...) replaced by the linear form / value `repl`"""
+    if isinstance(v, Lin):
+        out = Lin(c=v.c)
+        for at, coef in v.t.items():
+            if at == atom:
+                out = out + lin(repl).scale(coef)
+            else:
+                at2 = subst(at, atom, repl)
+                if isinstance(at2, Lin):
+                    out = out + at2.scale(coef)
+                else:
+                    out = out + Lin({at2: coef})
+        return out
+    if isinstance(v, S):
+        return S(tuple(tuple(subst(x, atom, repl) if isinstance(x, (Lin, S, tuple)) else x for x in part) for part in v.p))
+    if isinstance(v, tuple):
+        if v == atom:
+            return repl
+        if v[:1] == ("fd",):
+            inner = subst(v[1], atom, repl)
+            return floordiv(inner, v[2]) if inner != v[1] else v
+        if v[:1] in (("min",), ("max",)):
+            args = tuple(subst(a, atom, repl) for a in v[1])
+            return mk_min(list(args), (), v[0]) if args != v[1] else v
+        if v[:1] == ("mul",):
+            a, b = subst(v[1], atom, repl), subst(v[2], atom, repl)
+            return lin(a) * lin(b) if (a, b) != (v[1], v[2]) else v
+        return tuple(subst(x, atom, repl) if isinstance(x, (Lin, S, tuple)) else x for x in v)
+    return v
 
 
 def free_symbols(*vals):
@@ -1344,6 +1398,10 @@ class Engine:
             return [st]
         if isinstance(node, ast.If):
             return self.if_(node, st)
+        if isinstance(node, ast.Expr):
+            loop = self._as_loop(node, st)
+            if loop is not None:
+                return self.for_(loop, st)
         if isinstance(node, (ast.For, ast.AsyncFor)):
             return self.for_(node, st)
         if isinstance(node, ast.While):
@@ -1534,6 +1592,30 @@ class Engine:
             res.append((c, val))
         return res
 
+    def _as_loop(self, node, st):
+        """`xs.extend(f(a) for a in gen(...))`, `f.writelines(gen(...))` with `gen` a generator function of the module: the loop they stand for -
+        `for a in gen(...): xs.append(f(a))` - so that the generator can be followed like in a `for` statement.  None for anything else."""
+        c = node.value
+        if not (isinstance(c, ast.Call) and isinstance(c.func, ast.Attribute) and c.func.attr in ("extend", "writelines") and len(c.args) == 1 and not c.keywords):
+            return None
+        arg = c.args[0]
+        one = {"extend": "append", "writelines": "write"}[c.func.attr]
+        if isinstance(arg, (ast.GeneratorExp, ast.ListComp)) and len(arg.generators) == 1 and not arg.generators[0].ifs and not arg.generators[0].is_async \
+                and isinstance(arg.generators[0].iter, ast.Call) and self._generator_of(arg.generators[0].iter, st) is not None:
+            target, it, elt = arg.generators[0].target, arg.generators[0].iter, arg.elt
+        elif isinstance(arg, ast.Call) and self._generator_of(arg, st) is not None:
+            self.genseq = getattr(self, "genseq", 0) + 1
+            target = ast.Name(id=f"item${self.genseq}", ctx=ast.Store())
+            it, elt = arg, ast.Name(id=target.id, ctx=ast.Load())
+        else:
+            return None
+        call = ast.Call(func=ast.Attribute(value=c.func.value, attr=one, ctx=ast.Load()), args=[elt], keywords=[])
+        loop = ast.For(target=target, iter=it, body=[ast.Expr(value=call)], orelse=[], type_comment=None)
+        for n in [loop, call, call.func, loop.body[0]] + ([target, elt] if not hasattr(target, "lineno") else []):
+            ast.copy_location(n, node)
+            n._vparent, n._vmod = getattr(node, "_vparent", None), getattr(node, "_vmod", None)
+        return loop
+
     # ------------------------------------------------------------------------------------------------------------ generators
     def _for_generator(self, node, target, st):
         """`for T in gen(args): BODY` with `gen` a generator function of the module: the generator's body is run in the caller's frame (its
@@ -1714,12 +1796,25 @@ class Engine:
                     nxt.extend((a, b))
                 states = nxt
             return states
-        states = fork_on(ifexps, states)
+        # True / False used as numbers:  n * (a == b),  1 + 2 * flag + (x > y),  "*" * wide
+        flags, tests = [], []
+        for root in nodes:
+            for n in (ast.walk(root) if isinstance(root, ast.AST) else ()):
+                if isinstance(n, ast.BinOp) and isinstance(n.op, (ast.Add, ast.Sub, ast.Mult)):
+                    for o in (n.left, n.right):
+                        if _is_test_node(o):
+                            tests.append(o)
+                        elif isinstance(o, ast.Name) and self._is_bool(st.env.get(o.id)) and not _is_k(st.env.get(o.id)):
+                            flags.append(_Val.of(st.env[o.id]))
+        # flags held by variables first, then the tests written in place, innermost first: a test is read in each state, after what it depends on
+        # has been decided there
+        states = fork_on(flags + ifexps + tests[::-1], states)
         # lookups in a literal table keyed by conditions, TABLE[wide, extra]: the conditions are read in each state (a conditional expression inside
         # the key is decided by then)
+        # ... and pairs indexed by a truth value that is not spelled as a test: PAIR[flag], TABLE[is_complex][is_double]  (inner lookups first)
         tables = [n for root in nodes for n in (ast.walk(root) if isinstance(root, ast.AST) else ())
-                  if isinstance(n, ast.Subscript) and isinstance(n.value, (ast.Name, ast.Dict)) and not isinstance(n.slice, ast.Slice)]
-        for n in tables:
+                  if isinstance(n, ast.Subscript) and not isinstance(n.slice, ast.Slice) and not any(isinstance(x, (ast.Call, ast.NamedExpr, ast.Lambda)) for x in ast.walk(n.value))]
+        for n in reversed(tables):
             nxt = []
             for s in states:
                 try:
@@ -1728,6 +1823,12 @@ class Engine:
                     b = None
                 if isinstance(b, tuple) and b[:1] == ("dict",):
                     nxt.extend(fork_on([_Val.of(c) for c in self._key_tests(n.slice, s, self._bool_positions(b))], [s]))
+                elif isinstance(b, tuple) and b[:1] == ("tuple",) and len(b[1]) == 2:
+                    try:
+                        iv = self.index(n.slice, s)
+                    except Unsupported:
+                        iv = None
+                    nxt.extend(fork_on([_Val.of(iv)], [s]) if _truthlike(iv) else [s])
                 else:
                     nxt.append(s)
             states = nxt
@@ -1918,31 +2019,42 @@ class Engine:
                     if isinstance(b, ast.Name):
                         pass        # element stores do not rebind the name
         # monotone counters: every store to the name inside the loop is `v += c` / `v = v + c` with a constant c of one sign
-        for nm in names:
-            signs = set()
-            ok = True
-            for root in body:
-                for n in ast.walk(root):
-                    if isinstance(n, ast.AugAssign) and isinstance(n.target, ast.Name) and n.target.id == nm:
-                        if isinstance(n.op, (ast.Add, ast.Sub)) and isinstance(n.value, ast.Constant) and isinstance(n.value.value, int) and n.value.value != 0:
-                            signs.add((n.value.value > 0) == isinstance(n.op, ast.Add))
-                        else:
-                            ok = False
-                    elif isinstance(n, ast.Assign) and any(isinstance(x, ast.Name) and x.id == nm for t in n.targets for x in ast.walk(t)):
+        info = {nm: [set(), set(), True] for nm in names}          # signs, magnitudes, still a counter
+        for root in body:
+            for n in ast.walk(root):
+                if isinstance(n, ast.AugAssign) and isinstance(n.target, ast.Name) and n.target.id in info:
+                    rec = info[n.target.id]
+                    if isinstance(n.op, (ast.Add, ast.Sub)) and isinstance(n.value, ast.Constant) and isinstance(n.value.value, int) and n.value.value != 0:
+                        rec[0].add((n.value.value > 0) == isinstance(n.op, ast.Add))
+                        rec[1].add(abs(n.value.value))
+                    else:
+                        rec[2] = False
+                elif isinstance(n, ast.Assign):
+                    stored = {x.id for t in n.targets for x in ast.walk(t) if isinstance(x, ast.Name)}
+                    for nm in stored & set(info):
+                        rec = info[nm]
                         v = n.value
                         if len(n.targets) == 1 and isinstance(n.targets[0], ast.Name) and isinstance(v, ast.BinOp) and isinstance(v.op, (ast.Add, ast.Sub)) \
                                 and isinstance(v.left, ast.Name) and v.left.id == nm and isinstance(v.right, ast.Constant) and isinstance(v.right.value, int) \
                                 and v.right.value != 0:
-                            signs.add((v.right.value > 0) == isinstance(v.op, ast.Add))
+                            rec[0].add((v.right.value > 0) == isinstance(v.op, ast.Add))
+                            rec[1].add(abs(v.right.value))
                         else:
-                            ok = False
-                    elif isinstance(n, (ast.For, ast.AsyncFor)) and any(isinstance(x, ast.Name) and x.id == nm for x in ast.walk(n.target)):
-                        ok = False
-                    elif isinstance(n, (ast.With, ast.AsyncWith)) and any(it.optional_vars is not None and any(isinstance(x, ast.Name) and x.id == nm
-                                                                                                                   for x in ast.walk(it.optional_vars)) for it in n.items):
-                        ok = False
+                            rec[2] = False
+                elif isinstance(n, (ast.For, ast.AsyncFor)):
+                    for x in ast.walk(n.target):
+                        if isinstance(x, ast.Name) and x.id in info:
+                            info[x.id][2] = False
+                elif isinstance(n, (ast.With, ast.AsyncWith)):
+                    for it in n.items:
+                        if it.optional_vars is not None:
+                            for x in ast.walk(it.optional_vars):
+                                if isinstance(x, ast.Name) and x.id in info:
+                                    info[x.id][2] = False
+        for nm, (signs, mags, ok) in info.items():
             if ok and len(signs) == 1:
-                incs[nm] = +1 if True in signs else -1
+                # the sign says which way the counter moves; the magnitude is the step when every update uses the same one (else 1)
+                incs[nm] = (+1 if True in signs else -1) * (next(iter(mags)) if len(mags) == 1 else 1)
         return names, incs
 
     def _havoc(self, st, names, incs, tag):
@@ -1952,7 +2064,8 @@ class Engine:
             pre[nm] = old
             new = ("sym", f"{nm}@{tag}")
             st.env[nm] = new
-            if nm in incs and isinstance(old, Lin):
+            if nm in incs and _intlike(old):
+                old = pre[nm] = lin(old)              # a counter that starts from another integer variable (`end = start`) is a linear form too
                 if incs[nm] > 0:
                     st.add_fact(("cmp", "GtE", lin(new), old), True)
                 else:
@@ -2016,6 +2129,7 @@ class Engine:
             tv = self._iter_elem(it, k, body, lid)
             self.assign(node.target, tv, body, node)
             tvals = {x: body.env.get(x) for x in tnames}
+            tpre = {x: post.env.get(x) for x in tnames}            # what the loop variable holds if the loop does not run
             self.emit(body, "for", node, iter=it, target=tv, targets=tvals, loop=lid, index=k, pre=pre)
             ends = self.block(node.body, [body])
             n_ev = len(post.events)
@@ -2056,11 +2170,46 @@ class Engine:
                 if nm in incs and isinstance(pre.get(nm), Lin):
                     op = "GtE" if incs[nm] > 0 else "LtE"
                     post.add_fact(("cmp", op, lin(post.env[nm]), pre[nm]), True)
+            posts = [post]
+            # `for i in range(lo, hi, k)`: after the loop i is the last value of the range - lo + k * floor((hi - 1 - lo) / k) - or what it was before
+            # when the range is empty.  Code that goes on from the loop variable (a remainder written after the full lines) needs that value.
+            if isinstance(it, tuple) and it[:1] == ("range",) and is_int_const(it[3]) and ival(it[3]) > 0 and isinstance(node.target, ast.Name) \
+                    and not any(e_state.status == "break" for e_state in ends) and self._used_outside(node, node.target.id):
+                tn = node.target.id
+                lo_, hi_, k_ = lin(it[1]), lin(it[2]), ival(it[3])
+                ran_t = ("not", ("cmp", "GtE", lo_, hi_))
+                rr = self.decide(ran_t, post)
+                last = lo_ + floordiv(hi_ - 1 - lo_, k_).scale(k_)
+                ran_s, not_s = (post if rr is not False else None), (post.fork() if rr is None else (post if rr is False else None))
+                posts = []
+                if ran_s is not None:
+                    if rr is None:
+                        ran_s.add_fact(ran_t, True)
+                    ran_s.env[tn] = last
+                    self.emit(ran_s, "loopexit", node, loop=lid, env={nm: ran_s.env.get(nm) for nm in names}, ran=True, last=last)
+                    posts.append(ran_s)
+                if not_s is not None:
+                    if rr is None:
+                        not_s.add_fact(ran_t, False)
+                    if tpre.get(tn) is not None:
+                        not_s.env[tn] = tpre[tn]
+                    self.emit(not_s, "loopexit", node, loop=lid, env={nm: not_s.env.get(nm) for nm in names}, ran=False, last=None)
+                    posts.append(not_s)
             if node.orelse:
-                outs.extend(self.block(node.orelse, [post]))
+                outs.extend(self.block(node.orelse, posts))
             else:
-                outs.append(post)
+                outs.extend(posts)
         return outs
+
+    def _used_outside(self, loop, name):
+        """the name is read somewhere in the enclosing function outside the loop (so the value the loop leaves in it may matter)"""
+        fn = getattr(loop, "_vparent", None)
+        while fn is not None and not isinstance(fn, (ast.FunctionDef, ast.AsyncFunctionDef)):
+            fn = getattr(fn, "_vparent", None)
+        if fn is None:
+            return False
+        inside = {id(n) for n in ast.walk(loop)}
+        return any(isinstance(n, ast.Name) and n.id == name and isinstance(n.ctx, ast.Load) and id(n) not in inside for n in ast.walk(fn))
 
     def _iter_elem(self, it, k, st, lid):
         """value(s) bound to the loop target for iteration index k"""
@@ -2087,8 +2236,8 @@ class Engine:
             return ("elem", it[2][0], ("elem", ("op", ".keys", it[2]), lin(k)))
         if isinstance(it, tuple) and it and it[0] == "op" and it[1] == ".keys" and len(it[2]) == 1:
             return ("elem", it, lin(k))
-        if isinstance(it, tuple) and it[:1] == ("slice",):
-            return self._elem(it, lin(k))          # the k-th element of x[a::s] is x[a + s * k]
+        if isinstance(it, tuple) and it[:1] in (("slice",), ("comp",)):
+            return self._elem(it, lin(k))          # the k-th element of x[a::s] is x[a + s * k]; of a comprehension: its element expression
         return ("elem", it, lin(k))
 
     def while_(self, node, st):
@@ -2119,8 +2268,21 @@ class Engine:
             body.loops = body.loops + (lid,)
             r = self.decide(t, body)
             ends = []
+            wev = None
             if r is not False:
                 body.add_fact(t, True)
+                # a counter that moves in steps of k from lo and is tested against hi with k | hi - lo is at most hi - k inside the loop
+                for nm, c in incs.items():
+                    if c > 1 and _intlike(pre.get(nm)):
+                        symv = lin(("sym", f"{nm}@L{lid}"))
+                        hi = None
+                        for tt in (t[2] if isinstance(t, tuple) and t[:2] == ("bool", "and") else (t,)):
+                            if isinstance(tt, tuple) and tt[:1] == ("not",) and isinstance(tt[1], tuple) and tt[1][:2] == ("cmp", "GtE") and tt[1][2] == symv:
+                                hi = tt[1][3]
+                            elif isinstance(tt, tuple) and tt[:2] == ("cmp", "GtE") and tt[3] == symv and isinstance(tt[2], Lin):
+                                hi = tt[2] + 1
+                        if isinstance(hi, Lin) and _divisible(hi - lin(pre[nm]), c):
+                            body.add_fact(("cmp", "GtE", hi - c, symv), True)
                 wev = self.emit(body, "while", node, test=t, loop=lid, pre=pre, env={nm: body.env.get(nm) for nm in names}, iter=None, target=None)
                 ends = self.block(body_nodes, [body])
                 self._counted(wev, t, ends, names, pre, lid)
@@ -2160,6 +2322,11 @@ class Engine:
                 post.add_fact(t2, False)
             except Unsupported:
                 pass
+            # a counted loop (`c = lo; while c < hi: ...; c += k`, no other way out) whose range is a whole number of steps ends with c == hi
+            if wev is not None and wev.d.get("counter") and isinstance(wev.d.get("iter"), tuple):
+                _, lo_, hi_, step_ = wev.d["iter"]
+                if (ival(step_) == 1 or _divisible(lin(hi_) - lin(lo_), ival(step_))) and proves_ge0(lin(hi_) - lin(lo_), post.facts):
+                    post.env[wev.d["counter"]] = lin(hi_)
             self.emit(post, "loopexit", node, loop=lid, env={nm: post.env.get(nm) for nm in names})
             if node.orelse:
                 outs.extend(self.block(node.orelse, [post]))
@@ -2218,8 +2385,28 @@ class Engine:
             return lin(("dim", origin(base[2][0]), ival(idx)))
         if isinstance(base, tuple) and base and base[0] == "tuple" and is_int_const(idx) and -len(base[1]) <= ival(idx) < len(base[1]):
             return base[1][ival(idx)]
+        col = None
+        full = ("sl", Lin(), ("k", None), Lin(c=1))
+        if isinstance(idx, tuple) and idx[:1] == ("tuple",) and len(idx[1]) == 2 and idx[1][0] == full and is_int_const(idx[1][1]):
+            col = (base, ival(idx[1][1]))                      # m[:, k]
+        elif isinstance(base, tuple) and base[:2] == ("op", "T") and len(base[2]) == 1 and is_int_const(idx):
+            col = (base[2][0], ival(idx))                      # m.T[k]
+        if col is not None and isinstance(col[0], tuple) and col[0][:1] == ("op",) and col[0][1] in (".reshape", "np.reshape") and col[1] >= 0:
+            args = col[0][2]
+            shape = args[1][1] if len(args) == 2 and isinstance(args[1], tuple) and args[1][:1] == ("tuple",) else args[1:]
+            src = args[0]
+            if len(shape) == 2 and is_int_const(shape[1]) and ival(shape[1]) > col[1] and isinstance(src, tuple) and src[:1] == ("slice",) and src[4] == Lin(c=1) \
+                    and isinstance(src[2], Lin) and isinstance(src[3], Lin):
+                P = ival(shape[1])
+                whole = (lin(shape[0]) * P == src[3] - src[2]) or (shape[0] == Lin(c=-1) and _divisible(src[3] - src[2], P))
+                if whole:
+                    return ("slice", src[1], src[2] + col[1], src[3], Lin(c=P))        # x[a:b].reshape(-1, P)[:, k] is x[a + k : b : P]
         if isinstance(idx, tuple) and idx and idx[0] == "sl":
             return ("slice", base, idx[1], idx[2], idx[3])
+        if isinstance(base, tuple) and base[:1] == ("comp",) and len(base) == 5 and (isinstance(idx, Lin) or (isinstance(idx, tuple) and idx[:1] == ("sym",))) \
+                and not (isinstance(base[2], tuple) and base[2][:1] == ("range",)):
+            # the k-th item of (f(x) for x in xs) is f(xs[k]): the element expression with the pass number replaced
+            return subst(base[1], ("sym", f"<k>@L{base[4]}"), lin(idx))
         if isinstance(base, tuple) and base[:1] == ("slice",) and is_int_const(base[4]) and ival(base[4]) >= 1 and isinstance(base[2], Lin) \
                 and (isinstance(idx, Lin) or (isinstance(idx, tuple) and idx[:1] == ("sym",))) \
                 and not (isinstance(idx, Lin) and idx.is_const() and idx.c < 0) and not (base[2].is_const() and base[2].c < 0):
@@ -2284,7 +2471,25 @@ class Engine:
         # a string method applied to a string gives a string
         return isinstance(v, tuple) and v[:1] == ("op",) and v[1] in self.STR_METHODS and len(v[2]) >= 1 and self.is_str(v[2][0])
 
+    BOOL_CALLS = {"np.iscomplexobj", "np.isrealobj", "isinstance", "callable", "hasattr", "np.allclose", "np.array_equal", "np.any", "np.all",
+                  ".any", ".all", ".startswith", ".endswith", "np.isscalar", "np.issubdtype"}
+
+    def _is_bool(self, v):
+        """a value that is True or False: a test, or the result of a predicate"""
+        return isinstance(v, tuple) and (v[:1] in (("cmp",), ("not",), ("bool",), ("in",)) or (v[:1] == ("op",) and v[1] in self.BOOL_CALLS)
+                                         or (_is_k(v) and isinstance(v[1], bool)))
+
+    def _boolnum(self, v, st):
+        """True / False used as a number (n * (a == b), 1 + flag): 1 / 0 where the facts decide it"""
+        if self._is_bool(v):
+            r = self.decide(v, st) if not _is_k(v) else v[1]
+            if r is not None:
+                return Lin(c=int(r))
+        return v
+
     def binop(self, op, a, b, st, node=None):
+        if isinstance(op, (ast.Add, ast.Sub, ast.Mult)):
+            a, b = self._boolnum(a, st), self._boolnum(b, st)
         if isinstance(op, ast.Add):
             if self.is_str(a) or self.is_str(b):
                 return as_S(a) + as_S(b)
@@ -2455,7 +2660,7 @@ class Engine:
         if isinstance(node, ast.Subscript):
             base = self.ev(node.value, st)
             idx = self.index(node.slice, st)
-            if _is_test_node(node.slice) and isinstance(base, tuple) and base[:1] == ("tuple",) and len(base[1]) == 2:
+            if isinstance(base, tuple) and base[:1] == ("tuple",) and len(base[1]) == 2 and (_is_test_node(node.slice) or _truthlike(idx)):
                 r = self.decide(idx, st)              # (b, a)[test]  is  a if test else b
                 if r is not None:
                     return base[1][1] if r else base[1][0]
@@ -2733,6 +2938,11 @@ class Engine:
                 if isinstance(recv, S) and len(recv.p) == 1 and recv.p[0][0] == "fv" and recv.p[0][1] == "":
                     return S((("fv", f"{al}{ival(lin(args[0]))}", recv.p[0][2], recv.p[0][3]),))        # str(x).rjust(n)
                 return S((("fv", f"{al}{ival(lin(args[0]))}s", recv, role_of(node.func.value)),))
+        conc = lambda x: isinstance(x, tuple) and x[:1] == ("tuple",) and not any(isinstance(y, tuple) and y[:1] == ("star",) for y in x[1])
+        if name in ("itertools.chain.from_iterable", "chain.from_iterable") and nargs == 1 and conc(args[0]) and all(conc(x) for x in args[0][1]):
+            return ("tuple", tuple(y for x in args[0][1] for y in x[1]))          # known lists chained: one known list
+        if name in ("itertools.chain", "chain") and nargs >= 1 and not kws and all(conc(x) for x in args):
+            return ("tuple", tuple(y for x in args for y in x[1]))
         if name == "bool" and nargs == 1 and not kws:
             return args[0] if not isinstance(args[0], (Lin, S)) else ("not", ("cmp", "Eq", Lin(), args[0])) if isinstance(args[0], Lin) else ("k", bool(args[0].p))
         if name == "map" and nargs >= 2 and not kws and isinstance(args[0], tuple) and args[0][:1] == ("attr",) and args[0][2] == "format" and self.is_str(args[0][1]):
@@ -2892,6 +3102,10 @@ class Engine:
                 elif it[0] == "field":
                     v, role = None, "expr"
                     nm = it[2]
+                    tail = ""
+                    mm = re.match(r"^(\d*)((?:\.\w+)+)$", nm)
+                    if mm:
+                        nm, tail = mm.group(1), mm.group(2)          # {0.real} / {.imag}: an attribute of the argument
                     if nm == "" or nm.isdigit():
                         i = int(nm) if nm.isdigit() else state["i"]
                         if nm == "":
@@ -2907,6 +3121,10 @@ class Engine:
                     else:
                         root = re.split(r"[.\[]", nm)[0]
                         v = kws.get(root)
+                    if tail and v is not None:
+                        for a_ in tail.strip(".").split("."):
+                            v = ("attr", v, a_)
+                        role = "expr"
                     parts.append(("fv", it[1].text if it[1] is not None else None, v, role))
                 elif it[0] == "sub":
                     parts.append(("fmt", it[1], ()))
@@ -2939,6 +3157,11 @@ class Engine:
         return res
 
 
+def _intlike(v):
+    """a value that stands for an integer: a linear form, or a plain symbol (a loop variable of an enclosing loop, a parameter)"""
+    return isinstance(v, Lin) or (isinstance(v, tuple) and v[:1] == ("sym",))
+
+
 def _divisible(v, k):
     """the integer linear form is a multiple of k whatever its (integer) atoms are"""
     v = lin(v)
@@ -2950,6 +3173,11 @@ def _divisible(v, k):
         if not (isinstance(at, tuple) and at and at[0] in ("sym", "len", "dim", "fd", "flen", "min", "max")):
             return False
     return True
+
+
+def _truthlike(v):
+    """a value that can only be meant as a truth value when it indexes a pair: a comparison, a boolean combination, the result of a call"""
+    return isinstance(v, tuple) and v[:1] in (("cmp",), ("not",), ("bool",), ("in",), ("op",))
 
 
 def _is_test_node(n):
